@@ -22,6 +22,7 @@
      fmt_float / parse_float : strconv.AppendFloat as used by emitFloat / strconv.ParseFloat;
      cid_str / cid_parse     : Cid.String() / cid.Decode. *)
 Require Import IP.Base.Bytes IP.DM.Value IP.Codec.Utf8 IP.Codec.Base64.
+Require IP.Gen.FromGo.
 Open Scope N_scope.
 
 (* ------------------------------------------------------------------ options, errors *)
@@ -38,7 +39,8 @@ Definition dagjson_dopts := {| jd_links := true; jd_bytes := true; jd_dont_parse
 Definition json_dopts := {| jd_links := false; jd_bytes := false; jd_dont_parse_beyond := false; jd_max_depth := 0 |}.
 
 (* codec/dagjson/unmarshal.go: const defaultMaxDepth *)
-Definition jdefault_max_depth : Z := 1024.
+(* regenerated from codec/dagjson/unmarshal.go on every run *)
+Definition jdefault_max_depth : Z := IP.Gen.FromGo.go_json_defaultMaxDepth.
 Definition jmax_depth (o : jdopts) : Z :=
   if (0 <? jd_max_depth o)%Z then jd_max_depth o else jdefault_max_depth.
 
